@@ -101,6 +101,35 @@ def gen_case(alpha, rng, maxp=5, with_sym=True, symp=.12):
     return {"params": params, "shapes": shapes, "hasret": hasret, "rettoks": rettoks, "retshape": retshape, "args": {}}
 
 
+def gen_variadic_family(rng):
+    """three or four uses of ONE variadic name, each with or without '#', the shapes equal / broadcast-compatible / enlarged:
+    the hand-over of the broadcastable flag between uses is where order-dependence would hide"""
+    T = lambda mods, nm: {"mods": mods, "base": {"k": "ident", "nm": nm, "v": 0, "e": []}}
+    n = rng.choice([2, 3, 3, 4])
+    S = [rng.randint(1, 3) for _ in range(rng.choice([1, 2, 2]))]
+
+    def variant():
+        r = rng.random()
+        if r < .35:
+            return list(S)
+        if r < .55:
+            return [1 if rng.random() < .5 else d for d in S]
+        if r < .8:
+            return [rng.randint(2, 4)] + list(S)            # enlarged: S broadcasts to it
+        if r < .9:
+            return list(S[1:])
+        return [rng.randint(1, 3) for _ in S]
+    tail = rng.random() < .3
+    mk = lambda: [T(["#", "*"] if rng.random() < .5 else ["*"], "v")] + ([T([], "b")] if tail else [])
+    params = [{"nm": f"x{i}", "toks": mk()} for i in range(n)]
+    bsz = rng.randint(1, 3)
+    shapes = [variant() + ([bsz] if tail else []) for _ in range(n)]
+    hasret = rng.random() < .6
+    rettoks = mk() if hasret else []
+    retshape = (variant() + ([bsz] if tail else [])) if hasret else []
+    return {"params": params, "shapes": shapes, "hasret": hasret, "rettoks": rettoks, "retshape": retshape, "args": {}}
+
+
 def gen_history_case(alpha, rng):
     """a binder parameter and a parameter whose symbolic axis depends on it, instantiated INCONSISTENTLY; the
     sibling family over the binder's axis then contains the one call that is consistent (history dependence:
@@ -160,7 +189,7 @@ def worker(args):
     k = 0
     with open(out_path, "w") as f:
         while k < n:
-            case = gen_case(alpha, rng, maxp=opts.get("maxp", 5))
+            case = gen_variadic_family(rng) if rng.random() < .12 else gen_case(alpha, rng, maxp=opts.get("maxp", 5))
             seq = [case]
             if opts.get("siblings", True):
                 seq += [sibling(case, rng), json.loads(json.dumps(case))]
